@@ -3,6 +3,7 @@ package main
 import (
 	"fmt"
 	"net"
+	"runtime"
 	"strings"
 	"time"
 
@@ -103,25 +104,34 @@ func sockRound(r *hx.Rand, scratch string, n int, must []Input) []sockResult {
 			add(svc, burstDatagram(r, svc, len(all)))
 		}
 	}
+	burstKeys := map[string]bool{}
+	for _, s := range all {
+		burstKeys[s.key] = true
+	}
 	// the burst: back to back
 	for _, s := range all {
 		s.conn.Write(s.in.Stream)
 	}
-	// one event per datagram is expected; wait for them (or 2 s), then for silence
-	deadline := time.Now().Add(2 * time.Second)
+	// Load-proof: every datagram of the burst is built to yield exactly ONE event, and the event
+	// bus delivers synchronously from the goroutine that runs Handle.  Wait until that NUMBER of
+	// events has arrived (generous deadline: only a run that really loses events waits it out),
+	// then give surplus events (a datagram reported twice) a few scheduler round trips.
 	count := func() int {
 		k := 0
 		for _, e := range l.EventsOf("cap") {
-			if e.Get("source-ip") != "" && strings.HasPrefix(e.Get("source-ip"), "127.1.") {
+			if burstKeys[e.Get("source-ip")+":"+anyField(e, "source-port")] {
 				k++
 			}
 		}
 		return k
 	}
+	deadline := time.Now().Add(10 * time.Second)
 	for count() < len(all) && time.Now().Before(deadline) {
-		time.Sleep(2 * time.Millisecond)
+		time.Sleep(time.Millisecond)
 	}
-	time.Sleep(30 * time.Millisecond)
+	for i := 0; i < 200; i++ {
+		runtime.Gosched()
+	}
 	evs := l.EventsOf("cap")
 	var out []sockResult
 	for _, s := range all {
@@ -211,11 +221,14 @@ func sharedPortSessions(r *hx.Rand, l *lab.Lab, port map[string]int, must []Inpu
 		crash := ""
 		select {
 		case <-fin:
-		case <-time.After(5 * time.Second):
-			crash = "server did not close the connection 5 s after the client's FIN"
+		case <-time.After(30 * time.Second):
+			crash = "server did not close the connection 30 s after the client's FIN"
 		}
 		c.Close()
-		// the bus delivers asynchronously: wait for 30 ms without a new event of this connection
+		// Load-proof: the client has seen the end of the stream, i.e. the server closed the
+		// connection, which it does after Handle returned; telnet and redis send their events
+		// from the goroutine that runs Handle and the bus delivers synchronously, so every event
+		// of this connection is in the capture channel now.
 		mine := func() []Ev {
 			var evs []Ev
 			for _, e := range l.EventsOf("cap") {
@@ -224,15 +237,6 @@ func sharedPortSessions(r *hx.Rand, l *lab.Lab, port map[string]int, must []Inpu
 				}
 			}
 			return evs
-		}
-		last, stable := len(mine()), 0
-		for i := 0; i < 400 && stable < 6; i++ {
-			time.Sleep(5 * time.Millisecond)
-			if n := len(mine()); n == last {
-				stable++
-			} else {
-				last, stable = n, 0
-			}
 		}
 		out = append(out, sockResult{in: in, ob: Obs{Events: mine()}, crash: crash})
 	}
